@@ -8,7 +8,7 @@ S = "modelx/core/system.py"
 
 def register(R, P):
     R.cls("AutoNamer", fields={"__basename": "str", "__last_postfix": "int"})
-    R.cls("ReferenceManager")
+    if "ReferenceManager" not in R.classes: R.cls("ReferenceManager")
     R.classes["System"].fields.update({"models": "dict[str,ModelImpl]", "currentmodel": "ModelImpl",
                                        "_backupnamer": "AutoNamer", "_modelnamer": "AutoNamer"})
     R.classes["ModelImpl"].fields.update({"name": "str", "refmgr": "ReferenceManager"})
